@@ -268,7 +268,16 @@ def run_int_cfg(
         if isinstance(expr, ast.Name) and expr.id in state:
             return state[expr.id]
         if atoms_extra is not None:
-            return atoms_extra(expr)
+            got = atoms_extra(expr)
+            if got is not None:
+                return got
+        if isinstance(expr, (ast.Name, ast.Attribute)):
+            try:
+                val = ctx.r.const(fn.module, expr, fn.cls)
+            except Exception:  # pylint: disable=broad-except
+                return None
+            if isinstance(val, (int, bool)):
+                return val
         return None
 
     for _ in range(max_steps):
